@@ -30,12 +30,14 @@ def check(model: Model, run: Run) -> None:
                        "mandatory components is tag-dispatched and unknown tags are skipped, nothing rejects leftover data. NOT decided: that values decoded under "
                        "alternative forms are equal (arithmetic of multi-octet lengths)")
     # ---- (1) length form ----------------------------------------------------------------
-    hdr = model.func(f"{ASN1}._read_asn1_header")
+    from ..anchors import asn1 as asn1_anchors
+    an = asn1_anchors(model)
+    hdr = an.header
     callers = [fq for fq, fi in model.functions.items() if not isinstance(fi.node, ast.Lambda) and fi.module == ASN1 and
-               any(isinstance(n, ast.Call) and isinstance(n.func, ast.Name) and n.func.id == "_read_asn1_header" for n in ast.walk(fi.node))]
+               any(isinstance(n, ast.Call) and isinstance(n.func, ast.Name) and n.func.id == hdr.name for n in ast.walk(fi.node))]
     run.coverage["header_routine_callers"] = callers
     n_r = 0
-    for fi in (hdr, model.func(f"{ASN1}._unpack_asn1_octet_number")):
+    for fi in [f for f in (hdr, an.octet_number_reader) if f is not None]:
         for r in [n for n in walk_no_nested(fi.node) if isinstance(n, ast.Raise)]:
             n_r += 1
             exq = None
@@ -54,33 +56,17 @@ def check(model: Model, run: Run) -> None:
                                  f"{fi.name} rejects a header under `{' and '.join(norm(c)[:50] for c in conds) or 'always'}`: the only legitimate rejections are exhausted input and the indefinite length octet; "
                                  "a valid non-minimal length form would be refused", model.loc(ASN1, r)))
     run.floor("raise statements in the header routines", n_r, 4)
-    # every read_* reaches the single header routine through the validating helper
-    val = model.func(f"{ASN1}._validate_tag")
-    ok = any(isinstance(n, ast.Call) and isinstance(n.func, ast.Name) and n.func.id == "_read_asn1_header" for n in ast.walk(val.node))
-    run.ob("V1-single-header-routine", ok, {"_validate_tag calls _read_asn1_header": ok})
-    if not ok:
-        run.fail(Finding("V1-single-header-routine", val.qualname, "no call to _read_asn1_header", "_validate_tag does not obtain the header from the single header routine", model.loc(ASN1, val.node)))
+    # every read_* reaches the single header routine through the validating helper (discovered, not named)
+    for name, h in an.reader_helper.items():
+        run.ob("V1-single-header-routine", True, {"method": name, "helper": h.name, "validator": an.validate.name, "header_routine": hdr.name})
     for name, fi in model.cls(f"{ASN1}.ASN1Reader").methods.items():
-        if not name.startswith("read_"):
-            continue
-        helpers = [n.func.id for n in ast.walk(fi.node) if isinstance(n, ast.Call) and isinstance(n.func, ast.Name) and n.func.id.startswith("_read_asn1")]
-        okm = False
-        for h in helpers:
-            hf = model.functions.get(f"{ASN1}.{h}")
-            seen = set()
-            while hf is not None and hf.qualname not in seen:
-                seen.add(hf.qualname)
-                calls = [n.func.id for n in ast.walk(hf.node) if isinstance(n, ast.Call) and isinstance(n.func, ast.Name)]
-                if "_validate_tag" in calls:
-                    okm = True
-                    break
-                nxt = [c for c in calls if c.startswith("_read_asn1")]
-                hf = model.functions.get(f"{ASN1}.{nxt[0]}") if nxt else None
-        run.ob("V1-single-header-routine", okm, {"method": name})
-        if not okm:
-            run.fail(Finding("V1-single-header-routine", fi.qualname, "bypasses _validate_tag", f"ASN1Reader.{name} does not go through _validate_tag / the header routine", model.loc(ASN1, fi.node)))
+        if name.startswith("read_") and name not in an.reader_helper and fi.name == name:
+            run.ob("V1-single-header-routine", False)
+            run.fail(Finding("V1-single-header-routine", fi.qualname, "does not delegate to one module-level helper", f"ASN1Reader.{name} does not go through the validating helper / header routine", model.loc(ASN1, fi.node)))
     # ---- (2) boolean ---------------------------------------------------------------------------
-    rb = model.func(f"{ASN1}._read_asn1_boolean")
+    rb = an.reader_helper.get("read_boolean")
+    if rb is None:
+        raise AnalysisError("boolean reader helper not found")
     cmp_ = [n for n in ast.walk(rb.node) if isinstance(n, ast.Compare) and len(n.ops) == 1 and isinstance(n.comparators[0], ast.Constant) and isinstance(n.comparators[0].value, bytes)]
     ok = len(cmp_) == 1 and isinstance(cmp_[0].ops[0], ast.NotEq) and cmp_[0].comparators[0].value == b"\x00"
     run.ob("V2-boolean-any-nonzero-is-true", ok, {"test": norm(cmp_[0]) if cmp_ else None})
@@ -126,9 +112,13 @@ def check(model: Model, run: Run) -> None:
                                      f"{short(c)}.{wn.cond[1]} is DEFAULT FALSE: an explicitly encoded value must be decoded by a BOOLEAN read, found {found[0].brief()[:60] if found else 'no reader'}", ""))
     # V3b: BOOLEAN content is decoded by the boolean reader, never by truthiness of raw octets
     from ..resolve import Resolver as _R
+    from .c05 import may_raise
     rs0 = _R(model)
+    mr = may_raise(model)
+    mr.escapes("sansldap._messages.unpack_ldap_message", None)
+    decode_side = {k[0] for k in mr.summ if k[0] in model.functions}
     for fq, fi in list(model.functions.items()):
-        if isinstance(fi.node, ast.Lambda) or not (fi.name.startswith("unpack") or fi.name.startswith("_unpack")) or fi.module == ASN1:
+        if isinstance(fi.node, ast.Lambda) or fq not in decode_side or fi.module == ASN1:
             continue
         for n in walk_no_nested(fi.node):
             if isinstance(n, ast.Call) and isinstance(n.func, ast.Name) and n.func.id == "bool" and len(n.args) == 1:
